@@ -179,7 +179,7 @@ struct client {
 		}
 		timeval tv; tv.tv_sec = 3; tv.tv_usec = 0;
 		setsockopt(fd, SOL_SOCKET, SO_SNDTIMEO, &tv, sizeof(tv));
-		for (int i = 0; i < 40000 && accept_count == before; i++) usleep(50);
+		for (int i = 0; i < 400000 && accept_count == before; i++) usleep(50);   // up to 20 s on a loaded machine
 		if (accept_count == before) { srv_fd = -1; gen = 0; }
 		else { srv_fd = int(last_accepted_fd); gen = (srv_fd >= 0 && srv_fd < 4096) ? long(fd_gen[srv_fd]) : 0; }
 		return true;
@@ -187,7 +187,7 @@ struct client {
 	bool server_closed() const { return srv_fd < 0 || srv_fd >= 4096 || gen == 0 || long(fd_gen[srv_fd]) != gen; }
 	void wait_consumed()
 	{
-		for (int i = 0; i < 40000; i++) {
+		for (int i = 0; i < 250000; i++) {   // up to 5 s
 			int out = 0;
 			if (server_closed()) return;
 			if (tcp && ioctl(fd, SIOCOUTQ, &out) == 0 && out > 0) { usleep(20); continue; }
@@ -396,7 +396,7 @@ int main(int argc, char **argv)
 				// event loop finish it - a posted marker runs after the current handler returned
 				std::atomic<int> *flag = new std::atomic<int>(0);
 				srv.post([flag]() { *flag = 1; });
-				for (int i = 0; i < 40000 && !*flag; i++) usleep(50);
+				for (int i = 0; i < 200000 && !*flag; i++) usleep(50);
 			}
 			out << "closed=" << (closed ? 1 : 0) << " ";
 			out << "calls=" << (g_sync_calls - c0) << "," << (g_async_calls - c1) << "," << (g_up_setup - c2) << "," << (g_up_main - c3)
